@@ -4,6 +4,7 @@ import (
 	"errors"
 	"fmt"
 	"io"
+	"math/rand"
 	"sort"
 	"time"
 
@@ -25,6 +26,7 @@ type c03Cfg struct {
 	NoNack     []bool   `json:"no_nack"` // stream did not negotiate NACK
 	TailMs     int      `json:"tail_ms"`
 	Rebind     []int    `json:"rebind,omitempty"` // per stream: after this many packets the stream is unbound and continues under a new SSRC (0: never); one straggler still arrives through the old reader
+	WErrP      int      `json:"werr_permille,omitempty"` // the RTCP writer fails this often (after it has seen the packet)
 }
 
 type c03Op struct {
@@ -136,6 +138,9 @@ func (c03) Gen(seed int64, tier string, avoid []string) *Plan {
 		}
 		cfg.Rebind = append(cfg.Rebind, k)
 	}
+	if chance(r, 300) {
+		cfg.WErrP = pick(r, 50, 200, 500)
+	}
 	p.Cfg = mustJSON(cfg)
 	setOps(p, ops)
 	return p
@@ -153,11 +158,22 @@ type c03Model struct {
 	count16 map[uint16]int // same, keyed by the 16-bit value (lenient side of the completeness check)
 	track   verTrack
 	dead    bool // the stream was unbound: what is still said about it is C11's business
+	noNack  bool
+	deadAt  time.Duration
+	at      []time.Duration // at[v-1]: simulated instant of arrival v (same indexing as hi)
+	nacks   []c03Nack       // every NACK written for the stream that matched a version
+}
+
+// c03Nack is one NACK as written: the instant and the unwrapped numbers it requested.
+type c03Nack struct {
+	at time.Duration
+	us []int64
 }
 
 //go:norace
 func (m *c03Model) add(seq uint16) {
 	v := len(m.hi)
+	m.at = append(m.at, simNow())
 	if !m.started {
 		m.started = true
 		m.end16 = seq
@@ -195,6 +211,16 @@ func (m *c03Model) missing(v int, size, skip uint16) map[uint16]int64 {
 		}
 	}
 	return out
+}
+
+// simNow is the simulated time since the start of the run.
+//
+//go:norace
+func simNow() time.Duration {
+	if simrt.S == nil {
+		return 0
+	}
+	return simrt.S.Now()
 }
 
 func (c03) Run(e *Env) {
@@ -236,12 +262,22 @@ func (c03) Run(e *Env) {
 		}
 	}
 	for i, ssrc := range cfg.SSRCs {
-		models[ssrc] = &c03Model{recvAt: map[int64]int{}, count: map[int64]int{}, count16: map[uint16]int{}}
-		_ = i
+		models[ssrc] = &c03Model{recvAt: map[int64]int{}, count: map[int64]int{}, count16: map[uint16]int{}, noNack: cfg.NoNack[i]}
+	}
+	var all []*c03Model // every model of the run, in creation order (the audit walks them)
+	for _, ssrc := range cfg.SSRCs {
+		all = append(all, models[ssrc])
 	}
 
+	werr := rand.New(rand.NewSource(e.Plan.Seed ^ 0x6e61636b))
+	loopStart := simNow()
 	ic.BindRTCPWriter(interceptor.RTCPWriterFunc(func(pkts []rtcp.Packet, _ interceptor.Attributes) (int, error) {
 		c03Check(e, cfg, models, wake, pkts)
+		if cfg.WErrP > 0 && werr.Intn(1000) < cfg.WErrP {
+			// the transport refuses the packet: the NACKs of the other streams of this tick are still due
+			e.Fault("rtcp_writer_err")
+			return 0, errInjected
+		}
 		return 0, nil
 	}))
 
@@ -293,8 +329,9 @@ func (c03) Run(e *Env) {
 					c03Dead(m)
 					ic.UnbindRemoteStream(info)
 					ssrc += 50000
-					m = &c03Model{recvAt: map[int64]int{}, count: map[int64]int{}, count16: map[uint16]int{}}
+					m = &c03Model{recvAt: map[int64]int{}, count: map[int64]int{}, count16: map[uint16]int{}, noNack: cfg.NoNack[i]}
 					c03AddModel(models, ssrc, m)
+					all = append(all, m)
 					info = streamInfo(ssrc, 96, 90000, fb...)
 					rd = ic.BindRemoteStream(info, inner)
 					if _, _, err := rd.Read(buf, interceptor.Attributes{}); err == nil || errors.Is(err, errInjected) {
@@ -318,7 +355,106 @@ func (c03) Run(e *Env) {
 	}
 	e.Wait(readers...)
 	simrt.Sleep(time.Duration(cfg.TailMs) * time.Millisecond)
+	closeAt := simNow()
 	ic.Close()
+	c03AuditTicks(e, cfg, all, loopStart, closeAt)
+}
+
+// c03AuditTicks is the completeness half of "at every reporting tick and for
+// every bound stream": the generator's loop starts with BindRTCPWriter and
+// ticks every configured interval of simulated time (nothing in this scenario
+// stalls it), so at every tick instant at which every version the tick can have
+// seen has a non-empty request set, a NACK for that stream must have been
+// written at that very instant - whatever happened to the NACKs of the other
+// streams in the same tick.  Versions: arrivals strictly before the instant
+// have been logged, arrivals at the instant may or may not have been.
+//
+//go:norace
+func c03AuditTicks(e *Env, cfg c03Cfg, all []*c03Model, loopStart, closeAt time.Duration) {
+	interval := time.Duration(cfg.IntervalMs) * time.Millisecond
+	ticks := int((closeAt - loopStart) / interval)
+	if ticks <= 0 {
+		return
+	}
+	// bounded work: a tick costs up to one window scan per stream and version
+	stride := 1 + ticks*int(cfg.Size)*len(all)/400000
+	phase := int(uint64(e.Plan.Seed) % uint64(stride))
+	for _, m := range all {
+		if m.noNack || len(m.hi) == 0 {
+			continue
+		}
+		vlo, vhi := 0, 0 // arrivals strictly before / up to the tick
+		cnt := map[int64]int{}
+		cnt16 := map[uint16]int{}
+		ni := 0
+		for k := 1; k <= ticks; k++ {
+			T := loopStart + time.Duration(k)*interval
+			if T >= closeAt || (m.dead && T >= m.deadAt) {
+				break
+			}
+			for vlo < len(m.at) && m.at[vlo] < T {
+				vlo++
+			}
+			for vhi < len(m.at) && m.at[vhi] <= T {
+				vhi++
+			}
+			// requests made before this tick
+			for ni < len(m.nacks) && m.nacks[ni].at < T {
+				for _, u := range m.nacks[ni].us {
+					cnt[u]++
+					cnt16[uint16(u)]++
+				}
+				ni++
+			}
+			if vlo < 1 || k%stride != phase {
+				continue
+			}
+			written := false
+			for j := ni; j < len(m.nacks) && m.nacks[j].at == T; j++ {
+				written = true
+			}
+			if written {
+				continue
+			}
+			due := true
+			var example int64
+			for v := vlo; v <= vhi && due; v++ {
+				u, ok := m.firstDue(v, cfg.Size, cfg.SkipLastN, int(cfg.MaxNacks), cnt, cnt16)
+				if !ok {
+					due = false
+				}
+				example = u
+			}
+			e.Check()
+			if due {
+				e.Probe("tick_audited_due")
+				e.Violatef("oracle", "c03:tick-without-nack", "tick at %v (interval %v): seq %d has been missing in every version [%d..%d] the tick can have seen and is below the NACK limit, but no NACK for the stream was written at that instant", T, interval, uint16(example), vlo, vhi)
+				return
+			}
+		}
+	}
+}
+
+// firstDue returns a number that must be requested at version v: missing, and
+// (in limit mode) requested fewer times than the limit so far - by either way
+// of counting, see c03Compare.
+//
+//go:norace
+func (m *c03Model) firstDue(v int, size, skip uint16, limit int, cnt map[int64]int, cnt16 map[uint16]int) (int64, bool) {
+	hi := m.hi[v-1]
+	lo := hi - int64(size) + 1
+	if lo <= m.first {
+		lo = m.first + 1
+	}
+	for s := lo; s <= hi-int64(skip); s++ {
+		if at, ok := m.recvAt[s]; !ok || at > v-1 {
+			if limit > 0 && (cnt[s] >= limit || cnt16[uint16(s)] >= limit) {
+				continue
+			}
+			return s, true
+		}
+	}
+	return 0, false
 }
 
 var errInjected = errors.New("injected fault")
@@ -333,7 +469,7 @@ func c03Arrive(m *c03Model, seq uint16) { m.add(seq); m.track.inner++ }
 func c03Returned(m *c03Model) { m.track.outer++ }
 
 //go:norace
-func c03Dead(m *c03Model) { m.dead = true }
+func c03Dead(m *c03Model) { m.dead = true; m.deadAt = simNow() }
 
 //go:norace
 func c03AddModel(models map[uint32]*c03Model, ssrc uint32, m *c03Model) { models[ssrc] = m }
@@ -405,10 +541,13 @@ func c03Check(e *Env, cfg c03Cfg, models map[uint32]*c03Model, wake map[int]map[
 					e.Probe("limit_mode_checked")
 				}
 				// commit counts
+				nk := c03Nack{at: simNow()}
 				for s := range req {
 					m.count[exp[s]]++
 					m.count16[s]++
+					nk.us = append(nk.us, exp[s])
 				}
+				m.nacks = append(m.nacks, nk)
 				break
 			} else if firstDiff == "" {
 				firstDiff = d
